@@ -92,6 +92,8 @@ def run(F, chk):
     # E5: pseudonyms are numbered per ECU: every pseudonym written into a message must be data-dependent on the message's ecu
     E5 = chk.rule('E5', 'anonymiser: every APID/CTID pseudonym stored into a message derives (data provenance) from a lookup keyed by the message ECU')
     check_pseudonym_keys(F, E5)
+    E6 = chk.rule('E6', 'plugins (rewrite excepted) store a whole extended header into a message only when it has none')
+    check_ext_header_only_added(F, E6)
 
     # plugin stage linearity
     stages = [b for b in F.order if b.crate == 'lib' and b.kind != 'closure' and
@@ -188,3 +190,40 @@ def check_pseudonym_keys(F, E5):
                              'the pseudonym stored into %s at %s does not derive from a lookup keyed by the message ECU (msg.ecu in provenance: %s, per-ECU table: %s): pseudonyms are numbered per ECU, so equal ids of different ECUs or a stale cache give wrong/duplicate pseudonyms' %
                              (s.place.show(b), b.loc(s.sp), ecu, table), where=b.loc(s.sp))
     E5.floor('pseudonym stores (apid/ctid) in the anonymiser', n, 2)
+
+
+# ---------------------------------------------------------------------------------------------
+# E6: a decoder only adds a missing extended header
+
+def check_ext_header_only_added(F, E6):
+    """A plugin may give a message without extended header one (the non-verbose decoder takes it from the FIBEX), but must not
+    replace an extended header the message already carries - that would change APID/CTID/type/level/noar of the stream.
+    Every store of the whole `extended_header` field of a message inside a plugin (rewrite excepted: it is configured to
+    change messages) is dominated by the true edge of `msg.extended_header.is_none()`."""
+    n = 0
+    for b in F.order:
+        if b.crate != 'lib' or not re.search(r'adlt::plugins::', b.path) or '::tests' in b.path or 'plugins::rewrite' in b.path:
+            continue
+        cfg = None
+        for blk in b.blocks:
+            if blk.cleanup:
+                continue
+            for s in blk.stmts:
+                if s.k == 'assign' and effects.field_path(s.place) == 'extended_header':
+                    cfg = cfg or CFG(b)
+                    E = ExprBuilder(cfg, fold_named=True)
+                    n += 1
+                    E6.sites += 1
+                    E6.fn(b.path)
+                    ok = False
+                    for (c, truth, D) in guards.known(cfg, E, blk.i):
+                        sc = show(c)
+                        if 'extended_header' in sc and ((sc.startswith('Option::is_none(') and truth is True) or (sc.startswith('Option::is_some(') and truth is False) or
+                                                        (sc.startswith('discr(') and truth in (False, ('eq', 0)))):
+                            ok = True
+                    if ok:
+                        E6.ok(sample={'plugin_function': b.path, 'store_at': b.loc(s.sp), 'only_when': 'msg.extended_header.is_none()'})
+                    else:
+                        E6.violation(('ext-header-replaced', b.closure_of or b.path), '%s stores a whole extended header into the message at %s without a dominating `extended_header.is_none()`: an existing extended header '
+                                     '(APID, CTID, message type, level, noar) can be replaced' % (b.path, b.loc(s.sp)), where=b.loc(s.sp))
+    E6.floor('stores of a whole extended header in plugins', n, 1)
